@@ -102,3 +102,20 @@ theorem safeFor_of_basicSafe (M : Machine St Loc α β) (s : Sys St Loc α β) (
   rcases xonly_of_reach M s hr v hv with h | h <;> omega
 
 end Cb
+
+namespace Cb
+variable {St Loc α β : Type}
+
+/-- If the only phase-level violations are messages to upstreams that are not live (C04), then C01, C02, C03 and C17 hold. -/
+theorem safeFor_of_onlyUpNotLive (M : Machine St Loc α β) (s : Sys St Loc α β) (hr : SReach M s)
+    (hv : ∀ v ∈ s.g.ph.viols, ∃ i p, v = Viol.upNotLive i p) (hpn : s.panicked = none)
+    (p : Nat) (hp : p ≠ 4 ∧ p ≠ 5) : SafeFor p s := by
+  refine ⟨?_, fun _ => hpn⟩
+  intro v hv'
+  unfold G.viols at hv'
+  rcases List.mem_append.1 hv' with h | h
+  · rcases xonly_of_reach M s hr v h with h | h <;> omega
+  · obtain ⟨i, q, rfl⟩ := hv v h
+    simp [Viol.prop]; omega
+
+end Cb
